@@ -48,6 +48,13 @@ def shrink(eng, record, fkey, known, budget=300):
     used += 1
     if v is None:
         return record, None, used
+    # 0. a second session, if it is not needed
+    if best.get('session2'):
+        cand = {k: x for k, x in best.items() if k != 'session2'}
+        v2 = fails_with(eng, cand, fkey, known)
+        used += 1
+        if v2 is not None:
+            best, v = cand, v2
     # 1. truncate after the violating event
     events = best['events'][:v.event + 1]
     cand = dict(best, events=events)
